@@ -32,6 +32,26 @@ type c07Case struct {
 	AuthList  string `json:"auth_list"`      // advertised mechanisms ("-" = no AUTH keyword at all)
 	User      string `json:"user"`
 	Pass      string `json:"pass"`
+	// Setup: the policy is not given as an option but established by this sequence of setter calls on
+	// the Client ("policy:<p>" SetTLSPolicy, "portpolicy:<p>" SetTLSPortPolicy, "ssl:<bool>" SetSSL,
+	// "sslport:<bool>" SetSSLPort(b, false)); earlier entries are other policies the caller tried first,
+	// Opt is a policy OPTION given to NewClient before them. What counts is the last word: Policy.
+	Setup []string `json:"setup,omitempty"`
+	Opt   string   `json:"opt,omitempty"`
+	// Prior: before the judged DialAndSend the same Client has already dialled and closed one
+	// connection to the same address, where a well-behaved server offered STARTTLS with a valid
+	// certificate and AUTH PLAIN LOGIN.
+	Prior bool `json:"prior,omitempty"`
+}
+
+func c07Policy(p string) mail.TLSPolicy {
+	switch p {
+	case "opportunistic":
+		return mail.TLSOpportunistic
+	case "none":
+		return mail.NoTLS
+	}
+	return mail.TLSMandatory
 }
 
 var (
@@ -135,7 +155,11 @@ func c07Run(c c07Case) []*core.Violation {
 		opts = append(opts, mail.WithSSLPort(true))
 	}
 	opts = append(opts, mail.WithPort(port))
-	switch c.Policy {
+	polOpt := c.Policy
+	if len(c.Setup) > 0 {
+		polOpt = c.Opt
+	}
+	switch polOpt {
 	case "mandatory":
 		opts = append(opts, mail.WithTLSPolicy(mail.TLSMandatory))
 	case "opportunistic":
@@ -155,6 +179,50 @@ func c07Run(c c07Case) []*core.Violation {
 	if err != nil {
 		ln.Close()
 		return []*core.Violation{core.V("HARNESS-newclient", "%v", err)}
+	}
+	for _, st := range c.Setup {
+		k, v, _ := strings.Cut(st, ":")
+		switch k {
+		case "policy":
+			cl.SetTLSPolicy(c07Policy(v))
+		case "portpolicy":
+			cl.SetTLSPortPolicy(c07Policy(v))
+		case "ssl":
+			cl.SetSSL(v == "true")
+		case "sslport":
+			cl.SetSSLPort(v == "true", false)
+		default:
+			ln.Close()
+			return []*core.Violation{core.V("HARNESS-setup", "unknown setup step %q", st)}
+		}
+	}
+	firstJudged := 0
+	if c.Prior {
+		// first act: a well-behaved server at the same address; what the client learns there must not
+		// weaken what it does on the next connection
+		prior := refsmtp.NewServer(refsmtp.Script{Caps: []string{"8BITMIME", "STARTTLS", "AUTH PLAIN LOGIN"}, NoGreetProbe: true})
+		prior.Auth = c05Auth
+		prior.TLS = &tls.Config{Certificates: []tls.Certificate{leaf}, MinVersion: tls.VersionTLS12}
+		ln.SetServer(prior)
+		pdone := make(chan struct{})
+		go func() {
+			defer close(pdone)
+			defer func() { _ = recover() }()
+			if err := cl.DialWithContext(context.Background()); err == nil {
+				_ = cl.Close()
+			}
+		}()
+		select {
+		case <-pdone:
+		case <-time.After(30 * time.Second):
+			ln.Close()
+			rec.AddExtra("inconclusive_watchdog", 1)
+			return nil
+		}
+		prior.Release()
+		firstJudged = len(ln.SessionsSnapshot())
+		ln.SetServer(srv)
+		rec.AddExtra("second_connection_of_one_client_cases", 1)
 	}
 	m := simpleMsg(1, 1, "quoted-printable")
 	done := make(chan error, 1)
@@ -187,7 +255,10 @@ func c07Run(c c07Case) []*core.Violation {
 	if policy == "implicit-fallback" {
 		policy = "implicit"
 	}
-	for _, s := range sessions {
+	for si, s := range sessions {
+		if si < firstJudged {
+			continue
+		}
 		select {
 		case <-s.Done:
 		default:
@@ -271,7 +342,7 @@ func c07Run(c c07Case) []*core.Violation {
 	// evidence
 	deviates := !c.StartTLS || c.TLSReply != "ok" || c.Handshake != "ok"
 	if deviates || c.Policy != "none" {
-		rec.NonTrivial(core.Join(c.Policy, c.Auth, c.Host, c.StartTLS, c.TLSReply, c.Handshake, c.AuthList))
+		rec.NonTrivial(core.Join(c.Policy, c.Auth, c.Host, c.StartTLS, c.TLSReply, c.Handshake, c.AuthList, c.Opt, strings.Join(c.Setup, ">"), c.Prior))
 		rec.Sample(c.Policy+"/"+c.Handshake+"/"+c.TLSReply, map[string]interface{}{"case": c, "error": fmt.Sprint(callErr), "sessions": len(sessions)})
 	}
 	rec.Class("policy:" + c.Policy)
@@ -310,9 +381,53 @@ func c07Cases(full bool) []c07Case {
 	return out
 }
 
+// c07LifecycleCases: the policy established through setter sequences instead of an option, and the
+// judged connection being the SECOND one of the same Client.
+func c07LifecycleCases() []c07Case {
+	var out []c07Case
+	type beh struct {
+		adv       bool
+		reply, hs string
+	}
+	for _, pol := range []string{"mandatory", "opportunistic", "none"} {
+		setups := [][]string{{"policy:" + pol}, {"portpolicy:" + pol}, {"portpolicy:opportunistic", "portpolicy:" + pol}, {"policy:none", "portpolicy:" + pol},
+			{"policy:opportunistic", "policy:" + pol}, {"ssl:true", "ssl:false", "policy:" + pol}, {"sslport:true", "sslport:false", "portpolicy:" + pol}}
+		for _, setup := range setups {
+			for _, opt := range []string{"", "none", "opportunistic"} {
+				for _, b := range []beh{{false, "ok", "ok"}, {true, "ok", "ok"}, {true, "4yz", "ok"}} {
+					for _, auth := range []string{"", "PLAIN"} {
+						for _, host := range []string{"127.0.0.1", "127.0.0.2"} {
+							out = append(out, c07Case{Policy: pol, Opt: opt, Setup: setup, Auth: auth, Host: host, StartTLS: b.adv, TLSReply: b.reply, Handshake: b.hs, AuthList: "PLAIN LOGIN"})
+						}
+					}
+				}
+			}
+		}
+	}
+	for _, setup := range [][]string{{"policy:none", "ssl:true"}, {"sslport:true"}, {"portpolicy:none", "sslport:true"}} {
+		for _, host := range []string{"127.0.0.1", "127.0.0.2"} {
+			for _, hs := range []string{"ok", "garbage"} {
+				out = append(out, c07Case{Policy: "implicit", Opt: "none", Setup: setup, Auth: "PLAIN", Host: host, StartTLS: false, TLSReply: "ok", Handshake: hs, AuthList: "PLAIN LOGIN"})
+			}
+		}
+	}
+	for _, pol := range []string{"mandatory", "opportunistic", "none"} {
+		for _, host := range []string{"127.0.0.1", "127.0.0.2"} {
+			for _, auth := range []string{"", "AUTODISCOVER", "PLAIN", "LOGIN", "CRAM-MD5"} {
+				for _, b := range []beh{{false, "ok", "ok"}, {true, "4yz", "ok"}, {true, "ok", "ok"}} {
+					for _, al := range []string{"PLAIN LOGIN CRAM-MD5", "PLAIN LOGIN"} {
+						out = append(out, c07Case{Policy: pol, Prior: true, Auth: auth, Host: host, StartTLS: b.adv, TLSReply: b.reply, Handshake: b.hs, AuthList: al})
+					}
+				}
+			}
+		}
+	}
+	return out
+}
+
 func c07Describe() {
 	rec := core.Rec("C07")
-	rec.Rule = "real TCP sessions (default dialers, the client's DEFAULT tls.Config with the harness CA installed as the only system root through SSL_CERT_FILE) of DialAndSend against the reference server on 127.0.0.1 (a localhost name by go-mail's rule) and 127.0.0.2 (not): product of TLS policy {mandatory, default (no option), opportunistic, none, implicit} x 13 auth types x host x server behaviour {STARTTLS advertised or not; STARTTLS answered 220 / 454 / 502 / garbage; handshake ok / certificate for another name / certificate of an untrusted CA / garbage bytes; plain-text speaker on the implicit-TLS port; implicit TLS configured with a fallback port (WithSSLPort) where the primary port refuses and a plain-text server listens on the fallback port 25} x advertised AUTH lists (2 in quick, 7 in thorough, incl. only-cleartext mechanisms, empty, absent). Fresh random 16-character credentials per case. Both tiers enumerate their product completely (quick with 2 AUTH lists, thorough with 7). TestC07Names adds, over in-memory connections, 18 host names around go-mail's localhost rule (exact names, names that merely start/end with or contain 'localhost', 127.x look-alikes) x {none, opportunistic without STARTTLS} x {PLAIN, LOGIN, AUTODISCOVER} x 3 AUTH lists. " +
+	rec.Rule = "real TCP sessions (default dialers, the client's DEFAULT tls.Config with the harness CA installed as the only system root through SSL_CERT_FILE) of DialAndSend against the reference server on 127.0.0.1 (a localhost name by go-mail's rule) and 127.0.0.2 (not): product of TLS policy {mandatory, default (no option), opportunistic, none, implicit} x 13 auth types x host x server behaviour {STARTTLS advertised or not; STARTTLS answered 220 / 454 / 502 / garbage; handshake ok / certificate for another name / certificate of an untrusted CA / garbage bytes; plain-text speaker on the implicit-TLS port; implicit TLS configured with a fallback port (WithSSLPort) where the primary port refuses and a plain-text server listens on the fallback port 25} x advertised AUTH lists (2 in quick, 7 in thorough, incl. only-cleartext mechanisms, empty, absent). Lifecycle cases: the policy established by a sequence of setter calls (SetTLSPolicy, SetTLSPortPolicy, SetSSL, SetSSLPort after other policies were set first, with or without a weaker policy option) instead of an option, and the judged DialAndSend being the SECOND connection of one Client whose first connection (DialWithContext + Close) met a well-behaved server at the same address offering STARTTLS with a valid certificate and AUTH PLAIN LOGIN. Fresh random 16-character credentials per case. Both tiers enumerate their product completely (quick with 2 AUTH lists, thorough with 7). TestC07Names adds, over in-memory connections, 18 host names around go-mail's localhost rule (exact names, names that merely start/end with or contain 'localhost', 127.x look-alikes) x {none, opportunistic without STARTTLS} x {PLAIN, LOGIN, AUTODISCOVER} x 3 AUTH lists. " +
 		"Oracle on the byte tap: under mandatory policy the cleartext consists of EHLO/HELO, STARTTLS and QUIT lines only, no session continues after a handshake with an invalid certificate, nothing but QUIT (or TLS records) follows a failed handshake; implicit TLS: first byte is a TLS record and no SMTP verb in clear; under every policy the PLAIN/LOGIN password never appears in the cleartext raw, hex or base64 (3 alignments) unless the type is *-NOENC or the host is localhost; AUTODISCOVER never issues AUTH PLAIN/LOGIN/XOAUTH2 on an unencrypted connection. " +
 		"Non-trivial: the server deviates from the happy path or the policy is not 'none'. Distinct by the case tuple."
 	rec.Assumptions = []string{"Go's root loader honours SSL_CERT_FILE/SSL_CERT_DIR (Linux)", "127.0.0.2 is bindable on the loopback interface"}
@@ -324,7 +439,7 @@ func TestC07Enum(t *testing.T) {
 	}
 	c07Describe()
 	p := core.Prop[c07Case]{ID: "C07", Test: "TestC07", Run: c07Run}
-	cases := c07Cases(core.Thorough())
+	cases := append(c07Cases(core.Thorough()), c07LifecycleCases()...)
 	stride := 1
 	for i, c := range cases {
 		if i%core.Shards != core.Shard {
@@ -362,9 +477,12 @@ func TestC07Enum(t *testing.T) {
 
 func TestC07(t *testing.T) {
 	c07Describe()
-	cases := c07Cases(true)
+	cases := append(c07Cases(true), c07LifecycleCases()...)
 	core.Prop[c07Case]{ID: "C07", Test: "TestC07", Run: c07Run, Gen: func(t *rapid.T) c07Case {
 		c := cases[rapid.IntRange(0, len(cases)-1).Draw(t, "case")]
+		if len(c.Setup) == 0 && c.Policy != "default" && c.Policy != "implicit" && rapid.IntRange(0, 2).Draw(t, "second") == 0 {
+			c.Prior = true
+		}
 		c.User = "user" + rapid.StringMatching(`[a-z0-9]{6}`).Draw(t, "user")
 		c.Pass = rapid.StringMatching(`[A-Za-z0-9]{16}`).Draw(t, "pass")
 		return c
